@@ -78,32 +78,33 @@ Section rsrc.
   Proof. induction items as [|d t IH]; cbn [fold_right length]; [lia|]. pose proof (HE d). lia. Qed.
 
   (* number of directories dequeued and parsed, number of entries iterated:
-     bounded by the geometric sums - polynomial of degree max_level + 1 resp.
-     max_level + 2 in the number of entries per directory, NOT linear in the
-     size of the section *)
+     bounded by the geometric sums up to the deepest dequeued level - quadratic
+     resp. cubic in the number of entries per directory *)
   Theorem rsrc_walk_bounded : forall root,
-    rsrc_dirs_parsed g root <= 1 + E + E ^ 2 + E ^ 3 /\
-  rsrc_entries_iterated g root <= E * (1 + E + E ^ 2 + E ^ 3).
+    rsrc_dirs_parsed g root <= 1 + E + E ^ 2 /\
+    rsrc_entries_iterated g root <= E * (1 + E + E ^ 2).
   Proof.
-    intros root. unfold rsrc_dirs_parsed, rsrc_entries_iterated, rsrc_max_level.
+    intros root. unfold rsrc_dirs_parsed, rsrc_entries_iterated, rsrc_deepest_level.
     cbn [dirs_parsed entries_iterated].
-    pose proof (level_items_le root 0). pose proof (level_items_le root 1).
-    pose proof (level_items_le root 2). pose proof (level_items_le root 3).
+    pose proof (level_items_le root 0). pose proof (level_items_le root 1). pose proof (level_items_le root 2).
     pose proof (entries_here_le (level_items g root 0)). pose proof (entries_here_le (level_items g root 1)).
-    pose proof (entries_here_le (level_items g root 2)). pose proof (entries_here_le (level_items g root 3)).
+    pose proof (entries_here_le (level_items g root 2)).
     replace (E ^ 0) with 1 in * by reflexivity. replace (E ^ 1) with E in * by (cbn; lia).
-    replace (E ^ 2) with (E * E) in * by (cbn; lia). replace (E ^ 3) with (E * E * E) in * by (cbn; lia).
+    replace (E ^ 2) with (E * E) in * by (cbn; lia).
     pose proof (Nat.mul_le_mono_l _ _ E H) as M0. pose proof (Nat.mul_le_mono_l _ _ E H0) as M1.
-    pose proof (Nat.mul_le_mono_l _ _ E H1) as M2. pose proof (Nat.mul_le_mono_l _ _ E H2) as M3.
+    pose proof (Nat.mul_le_mono_l _ _ E H1) as M2.
     clear HE.
     generalize dependent (fold_right (fun d n => length (g d) + n) 0 (level_items g root 0)).
     generalize dependent (fold_right (fun d n => length (g d) + n) 0 (level_items g root 1)).
     generalize dependent (fold_right (fun d n => length (g d) + n) 0 (level_items g root 2)).
-    generalize dependent (fold_right (fun d n => length (g d) + n) 0 (level_items g root 3)).
     generalize dependent (length (level_items g root 0)). generalize dependent (length (level_items g root 1)).
-    generalize dependent (length (level_items g root 2)). generalize dependent (length (level_items g root 3)).
+    generalize dependent (length (level_items g root 2)).
     intros. split; nia.
   Qed.
+
+  (* nothing deeper than the levels whose entries are processed is dequeued *)
+  Lemma rsrc_no_wasted_level : rsrc_deepest_level <= rsrc_max_level.
+  Proof. unfold rsrc_deepest_level, rsrc_max_level. lia. Qed.
 End rsrc.
 
 (* the bound is reached by a table of two directories (16 + 8e bytes each)
@@ -122,11 +123,14 @@ Qed.
 Lemma bomb_entries_here : forall e items, fold_right (fun d n => length (bomb e d) + n) 0 items = e * length items.
 Proof. intros e items. induction items as [|d t IH]; cbn [fold_right length]; [lia|]. rewrite IH. unfold bomb. rewrite repeat_length. lia. Qed.
 
-Theorem rsrc_walk_superlinear : forall e,
-  rsrc_dirs_parsed (bomb e) 0 = 1 + e + e ^ 2 + e ^ 3 /\
-  rsrc_entries_iterated (bomb e) 0 = e * (1 + e + e ^ 2 + e ^ 3).
+(* the bound is exact for the self-referential table: the walk is cubic in the
+   number of entries per directory (a 16-bit count bounded by the size of the
+   section / 8), not linear in the size of the input *)
+Theorem rsrc_walk_bound_reached : forall e,
+  rsrc_dirs_parsed (bomb e) 0 = 1 + e + e ^ 2 /\
+  rsrc_entries_iterated (bomb e) 0 = e * (1 + e + e ^ 2).
 Proof.
-  intros e. unfold rsrc_dirs_parsed, rsrc_entries_iterated, rsrc_max_level.
+  intros e. unfold rsrc_dirs_parsed, rsrc_entries_iterated, rsrc_deepest_level.
   cbn [dirs_parsed entries_iterated]. rewrite !bomb_entries_here, !bomb_level.
   replace (e ^ 0) with 1 by reflexivity. replace (e ^ 1) with e by (cbn; lia). split; nia.
 Qed.
@@ -143,5 +147,5 @@ Example caps_example :
   collect 3 (fun x => Nat.even x) [2; 3; 4; 6; 8; 10] [] = [2; 4; 6] /\
   walk 3 0 (Node [Node [Node []]; Node []]) = Some 3 /\
   walk 3 0 (Node [Node [Node [Node []]]]) = None /\
-  rsrc_entries_iterated (bomb 3) 0 = 120.
+  rsrc_entries_iterated (bomb 3) 0 = 39.
 Proof. vm_compute. repeat split. Qed.
